@@ -39,6 +39,20 @@ type EvalCtx struct {
 	depth int
 	// loop-variable resolver (name -> value), used for invariants
 	lookup func(name string) (TV, bool)
+	// bound variables of the enclosing quantifiers (side facts of the floating-point model that
+	// mention them are asserted for all their values)
+	qbound []*Term
+}
+
+// assume records a defining fact of an auxiliary term introduced while evaluating (for example the
+// bit pattern of a floating-point result). Under a quantifier the fact holds for every value of the
+// bound variables, so it is asserted universally instead of leaking them.
+func (c *EvalCtx) assume(t *Term) {
+	if len(c.qbound) > 0 {
+		c.cur.Assume(Forall(c.qbound, t))
+		return
+	}
+	c.cur.Assume(t)
 }
 
 func (c *EvalCtx) with(env map[string]TV) *EvalCtx {
@@ -307,7 +321,9 @@ func (c *EvalCtx) eval(e Expr) TV {
 			bnd = append(bnd, b)
 			env[qv.Name] = TV{V: b, T: t}
 		}
-		body := c.boolOf(c.with(env).eval(e.Body), e.Body)
+		sub := c.with(env)
+		sub.qbound = append(append([]*Term(nil), c.qbound...), bnd...)
+		body := c.boolOf(sub.eval(e.Body), e.Body)
 		if e.Forall {
 			return TV{V: Forall(bnd, body), T: types.Typ[types.Bool]}
 		}
@@ -982,7 +998,7 @@ func (c *EvalCtx) convert(x TV, to types.Type) TV {
 	}
 	t, isTerm := x.V.(*Term)
 	if isTerm && t.Sort.Kind == SBV && (isInteger(to) || isFloat(to)) && (isInteger(x.T) || isFloat(x.T)) {
-		return TV{V: convertNum(t, x.T, to, func(a *Term) { c.cur.Assume(a) }), T: to}
+		return TV{V: convertNum(t, x.T, to, c.assume), T: to}
 	}
 	// string <-> []byte snapshots
 	if sv, ok := x.V.(SliceV); ok && isString(to) {
@@ -1100,7 +1116,7 @@ func (c *EvalCtx) evalBinary(e *Binary) TV {
 			return TV{V: FPOp("fp.geq", BoolSort, fx, fy), T: types.Typ[types.Bool]}
 		case "+", "-", "*", "/":
 			op := map[string]string{"+": "fp.add", "-": "fp.sub", "*": "fp.mul", "/": "fp.div"}[e.Op]
-			return TV{V: fpToBits(FPOp(op, fpSort(w), RNE, fx, fy), w, func(t *Term) { c.cur.Assume(t) }), T: a.T}
+			return TV{V: fpToBits(FPOp(op, fpSort(w), RNE, fx, fy), w, c.assume), T: a.T}
 		}
 		evalFail("unsupported float operator %s", e.Op)
 	}
